@@ -656,6 +656,20 @@ def error_chain_mentions(e: BaseException, text: str) -> bool:
     return False
 
 
+def innermost_wrapper(e: BaseException) -> str:
+    """name of the serde function in which the root cause was raised: the `SerdeError` closest to the
+    root of the `__cause__` chain says 'Error calling <function> with: ...'."""
+    seen = set()
+    name = ""
+    while e is not None and id(e) not in seen:
+        seen.add(id(e))
+        msg = str(e)
+        if msg.startswith("Error calling "):
+            name = msg[len("Error calling "):].split(" ", 1)[0]
+        e = e.__cause__
+    return name
+
+
 def is_redeclared_error(e: BaseException) -> bool:
     r = root_cause(e)
     return isinstance(r, ValueError) and "is redeclared in the current graph scope" in str(r)
@@ -767,6 +781,9 @@ class ProtoGen:
         defined: list[str] = []
         for _ in range(rng.randrange(0, 3 if depth else 4)):
             name = self.fresh("in")
+            if depth and outer and rng.random() < 0.12:
+                name = rng.choice(outer)  # shadows a name of an enclosing scope
+                self.note("shadowing_input")
             if self.bad(0.3) and defined:
                 name = rng.choice(defined)
                 self.note("dup_input")
@@ -789,6 +806,11 @@ class ProtoGen:
                 defined.append(name)
         n_nodes = rng.randrange(0, 5 if depth else 7)
         planned = [[self.fresh("t") for _ in range(rng.choice([1, 1, 1, 2, 3]))] for _ in range(n_nodes)]
+        if depth and outer and n_nodes and rng.random() < 0.15:
+            cand = [x for x in outer if x and x not in defined]
+            if cand:
+                planned[rng.randrange(n_nodes)][0] = rng.choice(cand)  # an output shadowing an outer name
+                self.note("shadowing_output")
         all_outs = [x for o in planned for x in o]
         vi_names: list[str] = []
         for k in range(n_nodes):
